@@ -320,9 +320,9 @@ def is_cid_load(f, ref, cid_ptr):
 
 
 # --------------------------------------------------------------------- mtbb
-def mtbb_module(ctx, roots_pat):
-    src = os.path.join(fe.VERIF, 'witnesses', 'mtbb_inst.cc')
-    flags = ['-I' + os.path.join(ctx.repo, 'include'), '-I' + os.path.join(ctx.repo, 'src')]
+def mtbb_module(ctx, roots_pat, witness='mtbb_inst.cc', extra_flags=(), stop_pats=()):
+    src = os.path.join(fe.VERIF, 'witnesses', witness)
+    flags = ['-I' + os.path.join(ctx.repo, 'include'), '-I' + os.path.join(ctx.repo, 'src')] + list(extra_flags)
     base = ctx.ssa(src, flavour='cxx', area='witness', cxx=True, srcdir=os.path.join(fe.VERIF, 'witnesses'), flags=flags)
     names = {}
     for key, pats in roots_pat.items():
@@ -331,7 +331,7 @@ def mtbb_module(ctx, roots_pat):
             from ..frontend import AnalysisBroken
             raise AnalysisBroken('mtbb instantiation %s: expected one function matching %s, found %s' % (key, pats, hits))
         names[key] = hits[0]
-    stops = ['myth_create', 'myth_join', '_Znwm', '_ZdlPv', '_Znam']
+    stops = ['myth_create', 'myth_join', '_Znwm', '_ZdlPv', '_Znam'] + [n for n in base.functions if any(p in n for p in stop_pats)]
     v = ctx.view(src, roots=list(names.values()), stops=stops, flavour='cxx', area='witness', cxx=True,
                  srcdir=os.path.join(fe.VERIF, 'witnesses'), flags=flags)
     return v, names
@@ -510,7 +510,34 @@ def rule5_mtbb(ctx):
         ctx.ob('C17.5', 'wait resets the list after joining', bool(resets) and all(not w.can_reach(r, j) for r in resets) and
                w.always_passes(w.entry_inst(), resets), 'the group is reusable after wait', loc=w.loc)
     rule5_range_and_memory(ctx)
-    ctx.floor('C17.5', 24 + 12)
+    rule5_prof_and_reentrancy(ctx)
+    ctx.floor('C17.5', 24 + 12 + 3)
+
+
+def rule5_prof_and_reentrancy(ctx):
+    """(a) the profiling flavour of task_group (DAG_RECORDER == 2, instantiated in witnesses/mtbb_inst_prof.cc): wait_ joins the tasks
+    of the group on every path - tasks can be added through the inherited run_task / run_if entry points, which the flavour's own
+    child counter does not see; (b) the C bulk helpers keep no state in static storage (they are re-entrant: nested and concurrent
+    calls with different functions)"""
+    v, nm = mtbb_module(ctx, {'wait_': (['task_group_with_prof5wait_'], [])}, witness='mtbb_inst_prof.cc',
+                        extra_flags=['-I' + os.path.join(ctx.repo, 'src', 'profiler')], stop_pats=('task_group_no_prof4waitEv',))
+    f = ctx.need_fn(v, nm['wait_'])
+    joins = [c for c in f.order if c.op in ('call', 'invoke') and c.callee and
+             (('task_group_no_prof4wait' in c.callee) or c.callee == 'myth_join')]
+    rets = [r for r in f.order if r.op == 'ret']
+    reach = f.reachable_from(f.entry_inst(), blocked=joins, include_start=True)
+    ctx.ob('C17.5', 'profiling task_group::wait_ joins the group on every path', bool(joins) and not [r for r in rets if r in reach],
+           'the base class wait (which joins every registered task) is passed whatever the flavour\'s own child counter says', loc=f.loc)
+    nat = ctx.view('myth_if_native.c', roots=['myth_create_join_many_ex_body', 'myth_create_join_various_ex_body'],
+                   stops=('myth_create_ex_body', 'myth_join_body', 'myth_create_join_various_ex_aux'), flavour='vanilla')
+    for name in ('myth_create_join_many_ex_body', 'myth_create_join_various_ex_body'):
+        g = ctx.need_fn(nat, name)
+        bad = [st for st in g.order if st.op == 'store' and isinstance(g.ap(st.ops[1]).root, dict) and g.ap(st.ops[1]).root.get('g')]
+        ptrs = [a_ for c in g.calls() for a_ in c.args if isinstance(a_, (str, dict)) and isinstance(g.ap(a_).root, dict) and
+                g.ap(a_).root.get('g') and not str(g.ap(a_).root.get('g')).startswith('.str')] if False else []
+        ctx.ob('C17.5', '%s keeps no state in static storage' % name, not bad,
+               'per-call tables (the one-element function array of create_join_many) live in the caller\'s frame: a static one is '
+               'overwritten by a nested or concurrent call before the leaves of this call have read it', loc=(bad[0].loc if bad else g.loc))
 
 
 def rule5_range_and_memory(ctx):
@@ -633,6 +660,10 @@ SCHED = 'src/myth_sched_func.h'
 PF = 'src/mtbb/parallel_for.h'
 TG = 'src/mtbb/task_group.h'
 MUTANTS = [
+    {'name': 'create_join_many keeps its one-element function table in static storage (seed4 C17/m1)', 'expect': 'C17.5',
+     'edits': [('src/myth_sched_func.h', "  myth_func_t funcs[1] = { func };", "  static myth_func_t funcs[1];\n  funcs[0] = func;")]},
+    {'name': 'profiling task_group::wait_ returns without joining when its own counter is zero (seed4 C17/m2)', 'expect': 'C17.5',
+     'edits': [(TG, "      if (n_outstanding_children == 0) dr_begin_section();\n      dr_dag_node * t = dr_enter_wait_tasks_(file, line);", "      if (n_outstanding_children == 0) return;\n      dr_dag_node * t = dr_enter_wait_tasks_(file, line);")]},
     {'name': 'range parallel_for midpoint (begin+end)/2u wraps for negative indices (seed3 C17/m1)', 'expect': 'C17.5',
      'edits': [(PF, "      Range left(range.begin(),\n                 range.begin() + (range.end() - range.begin()) / 2u,\n                 range.grainsize());\n      const Range right(range.begin() + (range.end() - range.begin()) / 2u,\n                        range.end(),\n                        range.grainsize());",
                 "      Range left(range.begin(), (range.begin() + range.end()) / 2u, range.grainsize());\n      const Range right((range.begin() + range.end()) / 2u, range.end(), range.grainsize());")]},
